@@ -972,6 +972,9 @@ func (val Value) HasIndex(key Value) Value {
 		if !val.IsKnown() {
 			return UnknownVal(Bool).RefineNotNull()
 		}
+		if key.IsNull() {
+			return False
+		}
 
 		index, accuracy := key.v.(*big.Float).Int64()
 		if accuracy != big.Exact || index < 0 {
@@ -993,6 +996,9 @@ func (val Value) HasIndex(key Value) Value {
 		if !val.IsKnown() {
 			return UnknownVal(Bool).RefineNotNull()
 		}
+		if key.IsNull() {
+			return False
+		}
 
 		keyStr := key.v.(string)
 		_, exists := val.v.(map[string]interface{})[keyStr]
@@ -1008,6 +1014,9 @@ func (val Value) HasIndex(key Value) Value {
 		}
 		if !key.IsKnown() {
 			return UnknownVal(Bool).RefineNotNull()
+		}
+		if key.IsNull() {
+			return False
 		}
 
 		index, accuracy := key.v.(*big.Float).Int64()
